@@ -369,9 +369,7 @@ static std::vector<BstrFn> bstr_fns() {
     return v;
 }
 
-static void bstr_exhaustive() {
-    const std::string alpha = std::string("aAb") + '\0' + ' ';
-    int L = 4;
+static void bstr_exhaustive(const std::string &alpha, int L) {
     std::vector<std::string> strs; strs.push_back("");
     for (size_t start = 0, len = 1; len <= (size_t)L; len++) { size_t end = strs.size(); for (size_t i = start; i < end; i++) for (char c : alpha) strs.push_back(strs[i] + c); start = end; }
     auto fns = bstr_fns();
@@ -394,8 +392,15 @@ static void bstr_exhaustive() {
             if ((idx % 50021) == 11) g_stats.sample("bstr * a=\"" + vc::esc(a) + "\" b=\"" + vc::esc(b) + "\" (all " + std::to_string(fns.size()) + " function groups)");
         }
     }
-    g_stats.cls("bstr_strings_per_argument", strs.size());
+    g_stats.cls("bstr_strings_per_argument_alphabet_" + vc::hex(alpha), strs.size());
     g_stats.cls("bstr_function_groups", fns.size());
+}
+// two passes: five ASCII symbols (letter in both cases, NUL, blank) to length 4, and a pass with bytes >= 0x80 next to
+// ASCII ones to length 3 (ordering is on unsigned bytes: "ab\x80" > "abz"; seeded change C17-9)
+static void bstr_exhaustive() {
+    bstr_exhaustive(std::string("aAb") + '\0' + ' ', 4);
+    if (!g_stats.failures.empty()) return;
+    bstr_exhaustive(std::string("aZ\xe9\x80") + '\0' + 'z', 3);
 }
 
 // ------------------------------------------------------------------------------------------------
